@@ -8,7 +8,8 @@
    (e) the Clustal reader on ANY block layout (any number of blocks, any widths - also differing from row to row -,
    blanks and digits inside the residue part, consensus lines between blocks) rebuilds for every sequence the
    normalised concatenation of its pieces; two layouts of the same rows are read as the same records.
-   MSF layouts of foreign writers, format sniffing of foreign files and the splitting over several inputs are decided by
+   The same holds for the body of an MSF file read into the records its header declared (C04_msf_body_any_layout).
+   MSF headers of foreign writers, format sniffing of foreign files and the splitting over several inputs are decided by
    the correspondence of the reader model with msa_io.c on generated presentations and by comparing
    the implementation's results across presentations (DESIGN C04). *)
 From KV Require Import Base FP Params Sort Detect DetectProofs Weave WeaveProofs Cmp Formats FormatsProofs FormatsProofs2 FormatsProofs3 Api.
@@ -94,6 +95,17 @@ Theorem C04_clustal_layouts_agree : forall rows1 rows2 k1 k2 seps1 seps2 hdr1 hd
                 records_of (m_recs m1) = records_of (m_recs m2).
 Proof. exact clu_layouts_agree. Qed.
 Print Assumptions C04_clustal_layouts_agree.
+
+(* the MSF body in any layout, read into the records the header declared (read_msf's second phase) *)
+Theorem C04_msf_body_any_layout : forall (rows : list lrow) k seps lead h0,
+  Forall (fun row => gname_ok (fst row)) rows -> Forall (fun row => length (snd row) = k) rows ->
+  (forall j, seps_ok (seps j)) -> Forall sep_line lead ->
+  exists recs h, fold_left msf_step (lead ++ body_lines rows k seps)
+                           (Some (map (fun row => empty_rec (fst row)) rows, 0%nat, h0)) = Some (recs, 0%nat, h) /\
+    Forall2 (fun r row => rr_name r = fst row /\ row_of r = norm (List.concat (snd row)) /\
+                          rr_res r = filter isalpha (List.concat (snd row))) recs rows.
+Proof. intros rows k seps lead h0 N P S L. exact (msf_body_layout rows k seps N P S lead h0 L). Qed.
+Print Assumptions C04_msf_body_any_layout.
 
 (* non-vacuity: two layouts of the same two rows - blocks of 3+2 columns with a consensus line, and one block with
    blanks and digits inside *)
